@@ -1,6 +1,7 @@
 """C02 - acknowledgement happens exactly once and never before the configured point."""
 import common as C
 import pipeline_lib as L
+import srctie
 
 META = dict(
     id="C02",
@@ -46,6 +47,10 @@ ORACLES = [L.oracle_c02]
 def run(ctx):
     rep = C.Report(ctx, META)
     rep.add_obligations(C.proof_obligations("C02"))
+    # source tie: Receiver.callback re-translated from the source text; srcproofs/Src_callback_*.v re-checked against it
+    src_obs, src_info = srctie.obligations(ctx, "callback", "C02")
+    rep.add_obligations(src_obs)
+    rep.extra["source_tie"] = src_info
     L.explore(ctx, rep, "C02", L.load_corpus_cases("C02"), "corpus", ORACLES, nontrivial)
     r = ctx.sub_rng("gen")
     broken = L.explore(ctx, rep, "C02", [L.gen_recv(r, "c02") for _ in range(ctx.n(900, 20000))], "main", ORACLES,
